@@ -88,7 +88,7 @@ def handler(payload):
         if how == 0:
             obj = from_crc_algorithm(label)
         else:
-            obj = from_crc_algorithm(CrcAlg.from_label(label.lower()))
+            obj = from_crc_algorithm(getattr(CrcAlg, label.upper().replace("-", "_")))   # as the callers do: CrcAlg.CRC32_MPEG
         v = obj.calculate(data)
         assert obj.verify(data, v) and not obj.verify(data, v ^ 1)
         return v
